@@ -49,6 +49,12 @@ type c13Params struct {
 	// HSBy (close-hs): which call starts the handshake that Close races with: handshake | read | write
 	HSBy string `json:"hs_by,omitempty"`
 	Role string `json:"role,omitempty"` // close-hs: client | server end under test
+	// UTServer (established, first-use, close-race): the connection the callers share is the server end (which
+	// sends the last flight of a full handshake), not the client end
+	UTServer bool `json:"ut_server,omitempty"`
+	// LateMs (first-use): writer 0 makes its first call only this many milliseconds of virtual time after the others
+	// (network latency is one millisecond: it arrives while some flight of the handshake is being processed)
+	LateMs int `json:"late_ms,omitempty"`
 }
 
 func (c13) ID() string    { return "C13" }
@@ -67,7 +73,7 @@ func (c13) Count(tier string) int {
 	if tier == "thorough" {
 		return 100000
 	}
-	return 1500
+	return 4000
 }
 func (c13) Make(tier string, seed uint64, i int) *Case {
 	return &Case{Prop: "C13", Index: i, Seed: CaseSeed(seed, "C13", i)}
@@ -118,6 +124,17 @@ func drawC13(src *vs.Src) *c13Params {
 	if p.Stack == DTLCP && (p.Scenario == "established" || p.Scenario == "close-race") {
 		p.BadAddr = src.Bool(1, 2)
 	}
+	if p.Scenario == "established" || p.Scenario == "first-use" || p.Scenario == "close-race" {
+		p.UTServer = src.Bool(1, 3)
+	}
+	if p.Scenario == "first-use" && src.Bool(2, 3) {
+		// (the flights of a handshake arrive at 1, 2, ... 5 ms)
+		p.LateMs = 1 + src.Intn(5)
+		p.UTServer = src.Bool(1, 2)
+		if p.Stack == TLCP && src.Bool(1, 2) {
+			p.Stack = DTLCP
+		}
+	}
 	if p.Scenario == "close-blocked" && src.Bool(1, 3) {
 		// the write deadline, set by another task, expires while Writes are blocked in a full transport; it is
 		// cleared again, the peer starts reading, the writers go on
@@ -126,6 +143,10 @@ func drawC13(src *vs.Src) *c13Params {
 		p.Scenario = "close-hs"
 		p.HSBy = pickStr(src, []string{"handshake", "read", "write"})
 		p.Role = pickStr(src, []string{"client", "server"})
+	} else if p.Scenario == "close-blocked" && src.Bool(1, 2) {
+		// nobody is inside Write any more (the last one gave up at its deadline), the transport is still full, a
+		// Read is pending
+		p.Scenario = "close-full"
 	}
 	return p
 }
@@ -217,6 +238,9 @@ func (c13) Run(c *Case, src *vs.Src) *Result {
 	if p.Scenario == "deadline-blocked" {
 		return runC13DeadlineBlocked(c, src, p, r)
 	}
+	if p.Scenario == "close-full" {
+		return runC13CloseFull(c, src, p, r)
+	}
 	w := NewWorld(c.Seed, src)
 	w.K.MaxElapsed = 120 * time.Second
 	w.K.MaxSteps = 400000
@@ -229,7 +253,7 @@ func (c13) Run(c *Case, src *vs.Src) *Result {
 	}
 	// connection under test: the client end; the peer (server end) is driven by two tasks
 	utEP, peerEP := pair.C, pair.S
-	if p.Dwell > 0 {
+	if p.Dwell > 0 || p.UTServer {
 		utEP, peerEP = pair.S, pair.C
 	}
 	var ut c13Conn = utEP
@@ -282,7 +306,11 @@ func (c13) Run(c *Case, src *vs.Src) *Result {
 			}
 		}
 		if p.Oversize && pair.Pipe != nil {
-			pair.Pipe.S.Write([]byte{23, 1, 1, 0xff, 0xff})
+			raw := pair.Pipe.S // the peer's end of the transport
+			if p.UTServer {
+				raw = pair.Pipe.C
+			}
+			raw.Write([]byte{23, 1, 1, 0xff, 0xff})
 		}
 	})
 	// --- connection under test
@@ -304,6 +332,9 @@ func (c13) Run(c *Case, src *vs.Src) *Result {
 			id := i
 			w.Go(t.Name, func() {
 				defer func() { t.Done = true }()
+				if id == 0 && p.LateMs > 0 {
+					vs.Sleep(time.Duration(p.LateMs) * time.Millisecond)
+				}
 				for k := 0; k < p.Frames; k++ {
 					n, err := ut.Write(c13FrameN(id, k, p.FrameLen))
 					if err != nil || n != p.FrameLen {
@@ -967,5 +998,96 @@ func runC13DeadlineBlocked(c *Case, src *vs.Src, p *c13Params, r *Result) *Resul
 	}
 	r.Stat("writes_timed_out", nFailed)
 	r.Stat("writes_ok", nOK)
+	return r
+}
+
+// runC13CloseFull: Close when nobody is inside Write but the transport is full (the peer has stopped reading; the
+// last Write gave up at its deadline) and another task is blocked in Read. Close may spend its close-notify write
+// timeout (five seconds), then it must come back, and the pending Read with it - long before the peer goes away.
+func runC13CloseFull(c *Case, src *vs.Src, p *c13Params, r *Result) *Result {
+	sigp := "C13 tlcp close-full"
+	w := NewWorld(c.Seed, src)
+	w.K.MaxElapsed = 120 * time.Second
+	env := NewEnv(w)
+	cc := &EPConf{Suites: []uint16{p.Suite}, ServerName: "server.test"}
+	sc := &EPConf{Suites: []uint16{p.Suite}, Certs: []string{"server_sig", "server_enc"}}
+	pair := NewPair(TLCP, env, cc, sc, "c", "s", "client:1", "server:443")
+	st := &c13Shared{}
+	var hsErr, closeErr, readErr error
+	var closeTook, readBack, closeEnd time.Duration
+	readBack = -1
+	writes := 0
+	w.Go("peer", func() {
+		if err := pair.S.Handshake(); err != nil {
+			return
+		}
+		// reads nothing; goes away after 60 s
+		vs.Block(func() bool { return false }, vs.Now().Add(60*time.Second))
+		pair.S.Close()
+	})
+	w.Go("ut", func() {
+		if err := pair.C.Handshake(); err != nil {
+			hsErr = err
+			st.set(2)
+			return
+		}
+		pair.Pipe.C.SetLimit(3000)
+		st.set(1)
+	})
+	w.Go("ut-reader", func() {
+		vs.Block(func() bool { return st.get() != 0 }, time.Time{})
+		if st.get() == 2 {
+			return
+		}
+		_, readErr = pair.C.Read(make([]byte, 64))
+		readBack = w.K.Elapsed()
+	})
+	w.Go("ut-writer", func() {
+		vs.Block(func() bool { return st.get() != 0 }, time.Time{})
+		if st.get() == 2 {
+			return
+		}
+		t := pair.C.(tEP)
+		t.Conn.SetWriteDeadline(vs.Now().Add(time.Second))
+		for k := 0; k < 12; k++ {
+			if _, err := pair.C.Write(c13FrameN(0, k, 1000)); err != nil {
+				break
+			}
+			writes++
+		}
+		st.set(5)
+	})
+	w.Go("ut-closer", func() {
+		vs.Block(func() bool { return st.get() == 5 || st.get() == 2 }, time.Time{})
+		if st.get() == 2 {
+			return
+		}
+		for i := 0; i < p.CloseAt; i++ {
+			vs.Yield()
+		}
+		t0 := w.K.Elapsed()
+		closeErr = pair.C.Close()
+		closeEnd = w.K.Elapsed()
+		closeTook = closeEnd - t0
+	})
+	reason, unf := w.Run()
+	w.Finish(r, sigp)
+	r.Key = r.Trace
+	r.Outcome = reason
+	if hsErr != nil {
+		r.Violate("setup", sigp+" handshake-failed", "%v", hsErr)
+		return r
+	}
+	if reason != vs.Done {
+		r.Violate("deadlock", sigp+" "+reason, "Close on a connection whose transport is full: run ended with %q, unfinished tasks %v (Close returned %v)", reason, unf, closeErr)
+		return r
+	}
+	if closeTook > 6*time.Second {
+		r.Violate("close-blocked", sigp+" close-does-not-unblock", "Close with a full transport and no Write in flight took %v of virtual time (%d frames had been written; it returned only when the peer went away); Close returned %v", closeTook, writes, closeErr)
+	}
+	if readBack < 0 || readBack > closeEnd+time.Second {
+		r.Violate("close-blocked", sigp+" pending-call-not-unblocked", "the Read pending when Close was called came back at %v, Close returned at %v (Read error %v)", readBack, closeEnd, readErr)
+	}
+	r.Stat("scenario_close_full", 1)
 	return r
 }
